@@ -154,8 +154,16 @@ def balance(body: Body, utxo, key_deposit, pool_deposit, pool_is_new=True):
         p_coin += o["coin"]
         add(p_assets, o["assets"])
     p_coin += body.fee
+    registered_here = set()      # pools registered by an earlier certificate of this very transaction
     for cert in body.certs:
-        dep, ref = cert_deposit_refund(cert, key_deposit, pool_deposit, pool_is_new)
+        new_pool = pool_is_new
+        if cert[0] == 3:
+            # POOL rule, certificates applied in order: the deposit is paid when the operator is not registered yet; a second
+            # registration certificate of the same operator in the same transaction is a re-registration (parameter update)
+            op = bytes(cert[1]) if isinstance(cert[1], (bytes, bytearray)) else repr(cert[1])
+            new_pool = pool_is_new and op not in registered_here
+            registered_here.add(op)
+        dep, ref = cert_deposit_refund(cert, key_deposit, pool_deposit, new_pool)
         p_coin += dep
         c_coin += ref
     for prop in body.proposals:
